@@ -211,3 +211,89 @@ Print Assumptions C12_process_awaited_partial.
 Print Assumptions C12_process_awaited_refuted.
 Print Assumptions C12_monitor_closed.
 Print Assumptions C12_failstart_example.
+
+(** ---- tie of the hook order per transition (session 5): Gen/MachineWiring.v (translate/machine_wiring.py),
+    Life/MachineTie.v.  [api_hook_order]: the hooks one trigger calls, oldest first, each with the lifecycle
+    state it sees, obtained by running the program DERIVED FROM THE REGENERATED CODE (CONFIG rows, StateMachine
+    method set and bodies, Callback bodies; order of the transitions library trusted) on the model state;
+    the theorems tie_* of Life/MachineTie.v (Props/C01.v, C03.v) show the model's segments are that program. *)
+From NL Require Gen.FsmConfig Life.MachineSyntax Gen.MachineWiring Life.MachineTie.
+
+Theorem C12_tie_machine_hook_order_initialize : forall s t c,
+  MachineTie.api_hook_order t c FsmConfig.TInitialize s =
+  match st_fsm s with
+  | Created => Some [(HStart, Created); (HChangeScript, Created); (HInitRun, Initialized); (HChangeState, Initialized)]
+  | _ => None
+  end.
+Proof. exact MachineTie.hook_order_initialize. Qed.
+
+Theorem C12_tie_machine_hook_order_run : forall s t c,
+  MachineTie.api_hook_order t c FsmConfig.TRun s =
+  match st_fsm s with Initialized => Some [(HChangeState, Running)] | _ => None end.
+Proof. exact MachineTie.hook_order_run. Qed.
+
+Theorem C12_tie_machine_hook_order_reset : forall s t o,
+  MachineTie.api_hook_order t (CReset o) FsmConfig.TReset s =
+  match st_fsm s with
+  | Initialized | Finished =>
+    Some ((HReset, st_fsm s) :: (match o_stmt o with Some _ => [(HChangeScript, st_fsm s)] | None => [] end)
+          ++ [(HInitRun, Initialized); (HChangeState, Initialized)])
+  | _ => None
+  end.
+Proof. exact MachineTie.hook_order_reset. Qed.
+
+Theorem C12_tie_machine_hook_order_close : forall s t,
+  MachineTie.api_hook_order t CClose FsmConfig.TClose s =
+  match st_fsm s with
+  | Created => Some [(HStart, Created); (HChangeScript, Created); (HClose, Closed); (HChangeState, Closed)]
+  | Closed => Some []
+  | _ => Some [(HClose, Closed); (HChangeState, Closed)]
+  end.
+Proof. exact MachineTie.hook_order_close. Qed.
+
+(** the run task (no Continue plugin registered): on_finished sees `finished`, then on_change_state; a refused
+    `finish` calls nothing *)
+Theorem C12_tie_machine_hook_order_finish : forall s, cont_plugins s = [] ->
+  match MachineTie.run_tail (st_fsm s) with Some k => Some (MachineTie.hook_order k s) | None => None end =
+  match st_fsm s with
+  | Running => Some [(HFinished, Finished); (HChangeState, Finished)]
+  | _ => Some []
+  end.
+Proof. exact MachineTie.hook_order_finish. Qed.
+
+(** the expansion of every accepted trigger down to hooks / waits / assignments, in order *)
+From Coq Require Import String.
+Local Open Scope string_scope.
+Theorem C12_tie_machine_expansion :
+  MachineTie.expand Created FsmConfig.TInitialize = Some [MachineTie.UHook "start" MachineTie.kwc; MachineTie.USetState Initialized; MachineTie.UCompose; MachineTie.UHook "on_initialize_run" MachineTie.kwc;
+                                      MachineTie.UHook "on_change_state" [("context", MachineTie.VContext); ("state_name", MachineTie.VState)]] /\
+  MachineTie.expand Initialized FsmConfig.TRun = Some [MachineTie.USetState Running; MachineTie.UNewRunFinished; MachineTie.UNewStarted; MachineTie.UCreateRunTask; MachineTie.UWaitStarted;
+                                  MachineTie.UHook "on_change_state" [("context", MachineTie.VContext); ("state_name", MachineTie.VState)]] /\
+  MachineTie.expand Running FsmConfig.TFinish = Some [MachineTie.USetState Finished; MachineTie.UHook "on_finished" MachineTie.kwc;
+                                 MachineTie.UHook "on_change_state" [("context", MachineTie.VContext); ("state_name", MachineTie.VState)]] /\
+  MachineTie.expand Finished FsmConfig.TReset = Some [MachineTie.UHook "reset" [("context", MachineTie.VContext); ("reset_options", MachineTie.VTrigKwarg "reset_options")];
+                                 MachineTie.UAwaitRunTask; MachineTie.USetState Initialized; MachineTie.UCompose; MachineTie.UHook "on_initialize_run" MachineTie.kwc;
+                                 MachineTie.UHook "on_change_state" [("context", MachineTie.VContext); ("state_name", MachineTie.VState)]] /\
+  MachineTie.expand Initialized FsmConfig.TReset = Some [MachineTie.UHook "reset" [("context", MachineTie.VContext); ("reset_options", MachineTie.VTrigKwarg "reset_options")];
+                                 MachineTie.USetState Initialized; MachineTie.UCompose; MachineTie.UHook "on_initialize_run" MachineTie.kwc;
+                                 MachineTie.UHook "on_change_state" [("context", MachineTie.VContext); ("state_name", MachineTie.VState)]] /\
+  MachineTie.expand Running FsmConfig.TClose = Some [MachineTie.UWaitRunFinished; MachineTie.USetState Closed; MachineTie.UHook "close" MachineTie.kwc;
+                                MachineTie.UHook "on_change_state" [("context", MachineTie.VContext); ("state_name", MachineTie.VState)]] /\
+  MachineTie.expand Finished FsmConfig.TClose = Some [MachineTie.UAwaitRunTask; MachineTie.USetState Closed; MachineTie.UHook "close" MachineTie.kwc;
+                                 MachineTie.UHook "on_change_state" [("context", MachineTie.VContext); ("state_name", MachineTie.VState)]] /\
+  MachineTie.expand Initialized FsmConfig.TClose = Some [MachineTie.USetState Closed; MachineTie.UHook "close" MachineTie.kwc;
+                                 MachineTie.UHook "on_change_state" [("context", MachineTie.VContext); ("state_name", MachineTie.VState)]] /\
+  MachineTie.expand Closed FsmConfig.TClose = Some [].
+Proof. exact MachineTie.expand_table. Qed.
+
+(** no construct of the regenerated code is left uninterpreted *)
+Theorem C12_tie_machine_expand_total : forall src tr, MachineTie.script src tr <> None -> MachineTie.expand src tr <> None.
+Proof. exact MachineTie.expand_total. Qed.
+
+Print Assumptions C12_tie_machine_hook_order_initialize.
+Print Assumptions C12_tie_machine_hook_order_run.
+Print Assumptions C12_tie_machine_hook_order_reset.
+Print Assumptions C12_tie_machine_hook_order_close.
+Print Assumptions C12_tie_machine_hook_order_finish.
+Print Assumptions C12_tie_machine_expansion.
+Print Assumptions C12_tie_machine_expand_total.
